@@ -79,6 +79,8 @@ def apalache_inductive(work, S, B, RB, timeout=900, tag="code"):
     res = {"size": S, "B": B, "ring_blocks": RB, "constants": tag}
     env = dict(os.environ)
     env.pop("JAVA_TOOL_OPTIONS", None)
+    # the launcher makes a SANYxxxx directory with mktemp on every start: keep that litter inside the scratch directory
+    env["TMPDIR"] = d
     for name, init, length in (("base", "Init", 0), ("step", "IndInit", 1)):
         t0 = time.time()
         try:
